@@ -2,7 +2,7 @@ From V Require Import Base.Bytes Base.Obs Model.MapOrder.
 (* histories on the real Stack (stack.go, with the process-wide sync.Pool behind Push(nil)) against the
    pool model: what every lookup sees after every step, and the caller-owned maps as they come back *)
 Inductive cop := CO (o : pop_ bytes) | CLook (k : bytes).
-Definition universe : list bytes := [bs "a"; bs "b"; bs "c"; bs "d"].
+Definition universe : list bytes := [bs "a"; bs "b"; bs "c"; bs "d"; bs "e"; bs "f"; bs "g"; bs "h"; bs "i"; bs "j"; bs "k"; bs "l"].
 Definition obs_opt_b (o : option bytes) : obs := match o with Some v => OL [OS "some"; OA v] | None => OL [OS "none"] end.
 Definition obs_scope (m : pscope bytes) : obs := OL (map (fun k => obs_opt_b (sget bytes m k)) universe).
 Fixpoint run_ops (s : pstate bytes) (ops : list cop) : list obs :=
